@@ -4,7 +4,7 @@ fn main() {
     let mut st = base_settings(true);
     merge(&mut st, &serde_json::json!({"core": {"merkle_tree_chunk_size_in_kb": 1}}));
     let mut bad = 0;
-    for seed in 0..40u64 {
+    for seed in [2u64,2,2,2,2,2,15,15,15,15,15,15,21,21,21,21,21,21,11,11,11,11,23] {
         let mut rng = vh::rng::SplitMix64::new(seed);
         let s = vh::assets::synth("mp4", &mut rng, 1500);
         let out = sign_with(context_with(&st), &simple_definition("p"), Some(c2pa::BuilderIntent::Create(c2pa::DigitalSourceType::Empty)), signer("ed25519").as_ref(), "video/mp4", &s.bytes);
